@@ -938,3 +938,27 @@ Proof.
   apply Permutation_sym in P. vm_compute in P. apply Permutation_length_1_inv in P. subst ord.
   vm_compute. intros [C|[]]. discriminate.
 Qed.
+
+(* ------------------------------------------------------------------------------------ *)
+(* 13. statements as used in Props/C03.v                                                 *)
+(* ------------------------------------------------------------------------------------ *)
+
+Theorem query_roundtrip_full l : wf_pairs l ->
+  parse_query (enc_query l) 38 = group_pairs l /\
+  (forall k, gmap_get k (group_pairs l) = values_of k l) /\
+  Permutation (gmap_flat (group_pairs l)) l /\
+  NoDup (map fst (group_pairs l)).
+Proof.
+  intros H. split; [|split; [|split]].
+  - unfold parse_query, do_parse_query. now rewrite query_roundtrip_pairs.
+  - intro k. apply group_pairs_lookup.
+  - apply group_pairs_flat.
+  - apply group_pairs_nodup.
+Qed.
+
+Theorem header_visible_full fold cookie_ord hs :
+  Permutation (cm_find_all (v_headers (add_headers fold cookie_ord txv_empty hs))) (filter nonempty_key hs) /\
+  forall k, dc_is_empty k = false ->
+    cm_find_string fold (v_headers (add_headers fold cookie_ord txv_empty hs)) k =
+    filter (fun e => bytes_eqb (fold (fst e)) (fold k)) (filter nonempty_key hs).
+Proof. split; [apply headers_visible|intros; now apply headers_lookup]. Qed.
